@@ -111,7 +111,7 @@ func Check(env *core.Env, rep *core.Report) *core.Result {
 		note("Decor_pinned", r, "negative control (no hold-back of a cut escape sequence): "+r.Violated+" violated")
 	})
 	par(func() {
-		r := core.MustHold(env, core.TLCOpts{Module: "DecorGen", Config: "DecorGen.cfg", Workers: 1})
+		r := core.MustHold(env, core.TLCOpts{Module: "DecorGen", Config: map[bool]string{false: "DecorGen.cfg", true: "DecorGen_5.cfg"}[thorough], Workers: 4})
 		for _, p := range r.Tagged("DEC") {
 			var c decCase
 			if err := json.Unmarshal([]byte(p), &c); err != nil {
@@ -122,8 +122,8 @@ func Check(env *core.Env, rep *core.Report) *core.Result {
 		note("DecorGen", r, fmt.Sprintf("%d (stream, chunking) cases with the predicted sink writes", len(cases)))
 	})
 	wg.Wait()
-	if len(cases) != 6933 {
-		core.Broken("DecorGen emitted %d cases, expected 6933", len(cases))
+	if want := map[bool]int{false: 6933, true: 44437}[thorough]; len(cases) != want {
+		core.Broken("DecorGen emitted %d cases, expected %d", len(cases), want)
 	}
 	add := func(kind, what string, detail interface{}) {
 		rep.Add(core.Finding{Prop: "C19", Key: "C19:" + kind, What: what, Detail: detail})
